@@ -394,3 +394,62 @@ M('c19-body-part-mutates-shared-media-handlers', 'C19', 'R2', MP,
   "        if self._data is None:\n            max_size = self._parse_options.max_body_part_buffer_size + 1\n",
   "        if self._data is None:\n            self._parse_options.media_handlers.pop('text/plain', None)\n            max_size = self._parse_options.max_body_part_buffer_size + 1\n",
   also=('C06', 'C13', 'C11'))
+
+# ------------------------------------------------------------------ wave 10
+SYNC = 'falcon/util/sync.py'
+# R1 (seed s10-c19-1): the compile lock is created lazily on the request path (check-then-act on shared state)
+M2('c19-compile-lock-created-lazily', 'C19', 'R1', [
+    {'file': RT, 'old': "        self._compile_lock = Lock()\n", 'new': "        self._compile_lock: Optional[Lock] = None\n"},
+    {'file': RT, 'old': "        with self._compile_lock:\n            if self._find == self._compile_and_find:",
+     'new': "        lock = self._compile_lock\n        if lock is None:\n            lock = self._compile_lock = Lock()\n        with lock:\n            if self._find == self._compile_and_find:"},
+])
+# variant: no local, the attribute itself is tested and filled
+M2('c19-compile-lock-created-lazily-on-attribute', 'C19', 'R1', [
+    {'file': RT, 'old': "        self._compile_lock = Lock()\n", 'new': "        self._compile_lock = None\n"},
+    {'file': RT, 'old': "        with self._compile_lock:\n            if self._find == self._compile_and_find:",
+     'new': "        if self._compile_lock is None:\n            self._compile_lock = Lock()\n        with self._compile_lock:\n            if self._find == self._compile_and_find:"},
+])
+# variant: created in the constructor, but every lazy compile installs a new one first
+M('c19-compile-lock-replaced-on-request-path', 'C19', 'R1', RT,
+  "        with self._compile_lock:\n            if self._find == self._compile_and_find:",
+  "        self._compile_lock = Lock()\n        with self._compile_lock:\n            if self._find == self._compile_and_find:")
+# R1: the re-check goes through a property that reads something else than the finder slot
+M2('c19-recheck-through-property-of-other-state', 'C19', 'R1', [
+    {'file': RT, 'old': "    @property\n    def finder_src(self) -> str:",
+     'new': "    @property\n    def is_compiled(self) -> bool:\n        return self._ast is not None\n\n    @property\n    def finder_src(self) -> str:"},
+    {'file': RT, 'old': "        with self._compile_lock:\n            if self._find == self._compile_and_find:",
+     'new': "        with self._compile_lock:\n            if not self.is_compiled:"},
+])
+# R1: the property is right but it is consulted before the lock is taken
+M2('c19-recheck-through-property-outside-lock', 'C19', 'R1', [
+    {'file': RT, 'old': "    @property\n    def finder_src(self) -> str:",
+     'new': "    @property\n    def is_compiled(self) -> bool:\n        return self._find != self._compile_and_find\n\n    @property\n    def finder_src(self) -> str:"},
+    {'file': RT, 'old': """        with self._compile_lock:
+            if self._find == self._compile_and_find:
+                # NOTE(caselit): replace the find with the result of the
+                # router compilation
+                self._find = self._compile()
+""", 'new': """        if not self.is_compiled:
+            with self._compile_lock:
+                self._find = self._compile()
+"""},
+])
+# R8 (seed s10-c19-3): one single-thread executor PER wrapped callable
+M2('c19-serial-executor-per-wrapper', 'C19', 'R8', [
+    {'file': SYNC, 'old': "_one_thread_to_rule_them_all = ThreadPoolExecutor(max_workers=1)\n", 'new': ""},
+    {'file': SYNC, 'old': "        executor = _one_thread_to_rule_them_all\n", 'new': "        executor = ThreadPoolExecutor(max_workers=1)\n"},
+])
+# one executor per CALL, built inside the wrapper
+M('c19-serial-executor-per-call', 'C19', 'R8', SYNC,
+  "        return await asyncio.get_running_loop().run_in_executor(\n            executor, partial(func, *args, **kwargs)\n        )\n\n    return wrapper\n\n\nasync def sync_to_async(",
+  "        return await asyncio.get_running_loop().run_in_executor(\n            None if executor is None else ThreadPoolExecutor(max_workers=1), partial(func, *args, **kwargs)\n        )\n\n    return wrapper\n\n\nasync def sync_to_async(")
+# the global executor gets more than one worker
+M('c19-serial-executor-four-workers', 'C19', 'R8', SYNC,
+  "_one_thread_to_rule_them_all = ThreadPoolExecutor(max_workers=1)", "_one_thread_to_rule_them_all = ThreadPoolExecutor(max_workers=4)")
+# threadsafe=False falls through to the default pool (test inverted for False)
+M('c19-serial-executor-not-selected-for-false', 'C19', 'R8', SYNC,
+  "    if threadsafe is None or threadsafe:\n        executor = None  # Use default\n",
+  "    if threadsafe is None or threadsafe is not None:\n        executor = None  # Use default\n")
+# the wrapper ignores the chosen executor
+M('c19-serial-executor-ignored-by-wrapper', 'C19', 'R8', SYNC,
+  "run_in_executor(\n            executor, partial(func, *args, **kwargs)", "run_in_executor(\n            None, partial(func, *args, **kwargs)")
